@@ -159,9 +159,19 @@ func Resolve(v ssa.Value) ssa.Value {
 		// a pass-through helper: every return hands back the same parameter unchanged (`publish(v) int`
 		// stores v somewhere and returns it): the call's value is the argument's value
 		if c, isCall := v.(*ssa.Call); isCall {
-			if a := passThroughArg(c); a != nil {
+			if a := passThroughArg(c, 0, true); a != nil {
 				v = a
 				continue
+			}
+			return v
+		}
+		// one result of a helper that hands a parameter back in that position (`failed(err) (float64, error)`)
+		if ex, isEx := v.(*ssa.Extract); isEx {
+			if c, isCall := ex.Tuple.(*ssa.Call); isCall {
+				if a := passThroughArg(c, ex.Index, false); a != nil {
+					v = a
+					continue
+				}
 			}
 			return v
 		}
@@ -178,14 +188,18 @@ func Resolve(v ssa.Value) ssa.Value {
 	return v
 }
 
-// passThroughArg: c calls a function with one result all of whose returns yield the same parameter;
-// returns the corresponding argument (nil otherwise).
-func passThroughArg(c *ssa.Call) ssa.Value {
+// passThroughArg: c calls a small function all of whose returns yield the same parameter as result #idx
+// (single: the function has exactly one result); returns the corresponding argument (nil otherwise).
+func passThroughArg(c *ssa.Call, idx int, single bool) ssa.Value {
 	fn := c.Call.StaticCallee()
-	if fn == nil || len(fn.Blocks) == 0 || len(fn.Blocks) > 8 || fn.Signature.Results().Len() != 1 {
+	if fn == nil || len(fn.Blocks) == 0 || len(fn.Blocks) > 8 {
 		return nil
 	}
-	idx := -1
+	nres := fn.Signature.Results().Len()
+	if (single && nres != 1) || (!single && nres < 2) || idx >= nres {
+		return nil
+	}
+	pidx := -1
 	n := 0
 	for _, b := range fn.Blocks {
 		r, ok := b.Instrs[len(b.Instrs)-1].(*ssa.Return)
@@ -193,7 +207,10 @@ func passThroughArg(c *ssa.Call) ssa.Value {
 			continue
 		}
 		n++
-		p, isParam := Strip(r.Results[0]).(*ssa.Parameter)
+		if idx >= len(r.Results) {
+			return nil
+		}
+		p, isParam := Strip(r.Results[idx]).(*ssa.Parameter)
 		if !isParam {
 			return nil
 		}
@@ -203,15 +220,15 @@ func passThroughArg(c *ssa.Call) ssa.Value {
 				k = i
 			}
 		}
-		if k < 0 || (idx >= 0 && idx != k) {
+		if k < 0 || (pidx >= 0 && pidx != k) {
 			return nil
 		}
-		idx = k
+		pidx = k
 	}
-	if n == 0 || idx < 0 || idx >= len(c.Call.Args) {
+	if n == 0 || pidx < 0 || pidx >= len(c.Call.Args) {
 		return nil
 	}
-	return c.Call.Args[idx]
+	return c.Call.Args[pidx]
 }
 
 func forwardLoad(u *ssa.UnOp) ssa.Value {
